@@ -66,10 +66,19 @@ func (t *ncLoopTarget) Get(ctx context.Context, req *sdcpb.GetDataRequest) (*sdc
 	return t.dev.Get(ctx, req)
 }
 
+// LoopRollback: a transaction at the end of a closed-loop history that does not stay.
+type LoopRollback struct {
+	T         Step   `json:"t"`
+	Ending    string `json:"ending"` // cancel | timeout
+	AfterSync bool   `json:"after_sync,omitempty"` // the sync has stored what T changed before the rollback starts
+}
+
 // ExecNCLoop runs one history in the NETCONF closed loop. pfx is the signature prefix of the calling check; with
 // reapply == false the oracles are (1) and (2) (C01 / C13 matters); with reapply == true (1) and (2) are
 // preconditions - a case in which they do not hold is discarded - and oracle (3), C09's statement, is judged.
-func ExecNCLoop(c *HistCase, pfx string, reapply bool) (nontrivial bool, labels []string, fail *Failure) {
+// With rollback != nil the history is a confirmed prefix; the rollback's transaction is applied and then cancelled (or
+// left to its 300 ms timer) and C05's statement is judged: device and intended store are back where they were.
+func ExecNCLoop(c *HistCase, pfx string, reapply bool, rollback *LoopRollback) (nontrivial bool, labels []string, fail *Failure) {
 	keys := func(m map[string]bool) []string {
 		var r []string
 		for k := range m {
@@ -86,7 +95,7 @@ func ExecNCLoop(c *HistCase, pfx string, reapply bool) (nontrivial bool, labels 
 	}
 	pre := func(f *Failure) (bool, []string, *Failure) {
 		// a failed precondition under the re-application oracle: not this check's business
-		if reapply {
+		if reapply || rollback != nil {
 			GetStats(pfx).Discard("closed-loop-precondition:" + f.Sig)
 			return false, []string{"discard"}, nil
 		}
@@ -202,7 +211,7 @@ func ExecNCLoop(c *HistCase, pfx string, reapply bool) (nontrivial bool, labels 
 		return nil
 	}
 	if f := checkStore("initial sync"); f != nil {
-		if reapply {
+		if reapply || rollback != nil {
 			return pre(f)
 		}
 		return false, keys(lab), f
@@ -228,17 +237,100 @@ func ExecNCLoop(c *HistCase, pfx string, reapply bool) (nontrivial bool, labels 
 			f.Sig = strings.Replace(f.Sig, "C01:", pfx+":ncloop:", 1)
 			_, calls := fake.TakeEditAnomalies()
 			f.Detail += fmt.Sprintf("\noptions %s, %d documents applied, last calls: %s", c.GNMI, calls, JSON(fake.CallsFrom(max(0, fake.CallCount()-4))))
-			if reapply {
+			if reapply || rollback != nil {
 				return pre(f)
 			}
 			return nontrivial, keys(lab), f
 		}
 		if f := checkStore(where); f != nil {
-			if reapply {
+			if reapply || rollback != nil {
 				return pre(f)
 			}
 			return nontrivial, keys(lab), f
 		}
+	}
+	if rollback != nil && !refused {
+		devBefore, _ := fake.ConfigSnapshot()
+		mergeBefore := h.Model.Merge()
+		intBefore, err := DumpIntended(context.Background(), env.Cache, h.DSName)
+		if err != nil {
+			return pre(Failf(pfx+":ncloop:dump", "%v", err))
+		}
+		h.Timeout = time.Hour
+		if rollback.Ending == "timeout" {
+			h.Timeout = 300 * time.Millisecond
+		}
+		res := h.SubmitStep(rollback.T)
+		if !res.OK {
+			h.FreeSlot(res.TxID)
+			GetStats(pfx).Discard("T-refused")
+			return false, []string{"discard"}, nil
+		}
+		lab["rollback-"+rollback.Ending] = true
+		devMid, _ := fake.ConfigSnapshot()
+		if len(norm(devMid).Diff(norm(devBefore))) > 0 {
+			nontrivial = true
+		}
+		if rollback.AfterSync && rollback.Ending == "cancel" {
+			if f := synced("after T"); f != nil {
+				return pre(f)
+			}
+			lab["rollback-after-sync-saw-T"] = true
+		}
+		if rollback.Ending == "cancel" {
+			if err := h.DS.TransactionCancel(ctx, res.TxID); err != nil {
+				return nontrivial, keys(lab), Failf(pfx+":ncloop:cancel-refused", "TransactionCancel of %s: %v", res.TxID, err)
+			}
+		} else {
+			dl := time.Now().Add(10 * time.Second)
+			for {
+				if _, isOpen, _ := h.DS.VerifPeekTransaction(); !isOpen {
+					break
+				}
+				if time.Now().After(dl) {
+					return nontrivial, keys(lab), Failf(pfx+":ncloop:still-open-after-timeout", "transaction %s (timeout 300 ms) is still open after 10 s", res.TxID)
+				}
+				time.Sleep(5 * time.Millisecond)
+			}
+			time.Sleep(50 * time.Millisecond)
+		}
+		devAfter, _ := fake.ConfigSnapshot()
+		if d := norm(devAfter).Diff(norm(devBefore)); len(d) > 0 {
+			sig := pfx + ":ncloop:device-not-restored"
+			// the recorded finding of C05: a path that held unmanaged running configuration before T took it over is
+			// deleted by the rollback instead of getting its value back
+			onlyUnmanaged := true
+			na, nb := norm(devAfter), norm(devBefore)
+			for k, vb := range nb {
+				if va, ok := na[k]; ok && va == vb {
+					continue
+				}
+				if _, managed := mergeBefore[k]; managed {
+					onlyUnmanaged = false
+				}
+			}
+			for k := range na {
+				if _, ok := nb[k]; !ok {
+					onlyUnmanaged = false
+				}
+			}
+			if onlyUnmanaged {
+				sig = pfx + ":device-not-restored:unmanaged-value-lost"
+			}
+			return nontrivial, keys(lab), Failf(sig, "NETCONF closed loop (%s), T ended by %s: the device differs from its configuration before T (after vs before):\n  %s\nT: %s\nlast calls: %s", c.GNMI, rollback.Ending, strings.Join(d, "\n  "), describe(res), JSON(fake.CallsFrom(max(0, fake.CallCount()-4))))
+		}
+		intAfter, err := DumpIntended(context.Background(), env.Cache, h.DSName)
+		if err != nil {
+			return pre(Failf(pfx+":ncloop:dump", "%v", err))
+		}
+		if d := DiffKeys(intBefore.Keys(), intAfter.Keys()); len(d) > 0 {
+			return nontrivial, keys(lab), Failf(pfx+":ncloop:intended-not-restored", "NETCONF closed loop (%s), T ended by %s: the intended store differs from its content before T (- before only, + after only):\n  %s", c.GNMI, rollback.Ending, strings.Join(d, "\n  "))
+		}
+		if f := checkStore("after the rollback"); f != nil {
+			return pre(f)
+		}
+		cancel()
+		return nontrivial, keys(lab), nil
 	}
 	if reapply && !refused && len(h.Model.Intents) > 0 {
 		nontrivial = true
